@@ -42,6 +42,7 @@ Bad(r) ==
      \cup (IF lt.suite_result # 1 \/ ((lt.suite.event = "failed") = (lt.suite.failed > 0)) THEN {}
            ELSE {<<"libtest", "verdict-disagrees-with-failed-total">>})
      \cup (IF r.info.junit.status_mismatch = 0 THEN {} ELSE {<<"junit", "testcase-status-contradicts-its-entries">>})
+     \cup (IF r.info.junit.totals_mismatch = 0 THEN {} ELSE {<<"junit", "suite-totals-differ-from-its-testcases">>})
 
 Detail(r) ==
   [n \in {"basic", "libtest", "json", "junit"} |-> BagDiff(ExpFacts(r.stream), Facts(r, n))]
